@@ -978,7 +978,28 @@ class KernelRun:
         wf.to_be_deleted.clear()
         await self.simple("clear_queue", lambda: None)
 
-    async def restart(self):
+    async def retarget_optional(self):
+        """An OPTIONAL step is built because its output is named as a target; the next director is
+        started with other targets (or none): the step must no longer count as needed."""
+        r, wf = self.r, self.wf
+        running = await self.q(lambda: self.steps(StepState.RUNNING))
+        if "./plan.py" not in running:
+            return
+        x, y = r.sample(PATHS, 2)
+        for args in (("extra", [], [x], Need.OPTIONAL), ("main", [], [y], Need.DEFAULT)):
+            if not (await self.define_explicit("./plan.py", *args)).startswith("ok"):
+                return
+        await self.complete_ok("./plan.py")
+        await self.restart(force_targets=([x], []))
+        for label in ("extra", "main"):
+            if await self.pop_until(label, limit=3):
+                await self.complete_ok(label)
+        await self.restart(force_targets=r.choice([([], []), ([y], [])]))
+        await self.end_phase()
+        for _ in range(2):
+            await self.pop()
+
+    async def restart(self, force_targets=None):
         """What a new director does with the stored workflow before its first dispatch: a new
         `Workflow` (consistency check with repair) and `Scheduler` on the same database, possibly
         with other targets, interrupted steps reset, environment rescanned, targets reconciled."""
@@ -990,9 +1011,11 @@ class KernelRun:
 
         r = self.r
         old = self.wf
-        if r.random() < 0.35:
+        if force_targets is not None or r.random() < 0.35:
             targets = r.sample(PATHS, r.choice([0, 0, 1, 2]))
             tdirs = [d.rstrip("/") + "/" for d in r.sample(DIRS[:4], r.choice([0, 0, 0, 1]))]
+            if force_targets is not None:
+                targets, tdirs = list(force_targets[0]), list(force_targets[1])
             self.targets, self.tdirs = targets, tdirs
             self.lines.append(f"k retarget {hexlist(sorted(targets))} {hexlist(sorted(tdirs))}")
             async with old.db:
@@ -1039,7 +1062,7 @@ class KernelRun:
             await self.tx("k reconcile", lambda: wf.reconcile_targets())
 
     SCENARIOS = ("nested_chain", "deferred_wakeup", "resource_race", "detached_completion", "rerole",
-                 "amended_consumer_rerun", "hold_recycle", "shrink_resources")
+                 "amended_consumer_rerun", "hold_recycle", "shrink_resources", "retarget_optional")
 
     async def generate(self, cm, nops: int, scenario: str | None = None):
         """A history: boot, then (in the well-formed stream) one directed scenario with probability
@@ -1068,6 +1091,8 @@ class KernelRun:
                 await self.hold_recycle()
             elif k < 0.68:
                 await self.shrink_resources()
+            elif k < 0.72:
+                await self.retarget_optional()
         menu = [(self.define, 20), (self.static, 8), (self.declstatic, 5), (self.tree, 4), (self.nglob, 4),
                 (self.amend, 8), (self.recycle_under_glob, 3),
                 (self.confirm, 12), (self.external, 6), (self.pop, 18), (self.run_step, 18),
